@@ -1,5 +1,191 @@
 import JF.Driver.Core
+import JF.Model.Activator
+import JF.Model.Wiring
+import JF.Gen.Wirings
 namespace JF.Driver
-/-- component `act` (stub until its model is written) -/
-def actComp : Comp := Comp.pure fun _ => "unimplemented"
+open JF.Act
+
+/-!
+component `act`: one session holds a wiring and the TagActivator bookkeeping model.
+
+requests                                   replies
+`cfg <name>`                               load the generated wiring `cfg_<name>` (JF/Gen/Wirings.lean), `initialize`:
+                                           `ok <#taggers> <#handlers> <start tagger | ->`
+`dump <name>`                              canonical rendering of the generated wiring (translator self-check)
+`sound <name>`                             `ok states=<k>` | `fail <clause>:<E>-><T> …`   (`WiringSound` of the generated wiring)
+`wbegin <name> <#labels>`                  start a wiring sent by the harness: `ok`
+`tagger <tag> <cls> <handler> <kind> <label|-> <pool> <nc> c… <nt> t… <na> a… <nd> d…`   append a tagger: `ok <idx>`
+`wend`                                     finish + `initialize`: `ok <#taggers> <#handlers> <start | ->`
+`soundw`                                   `WiringSound` report of the session's wiring
+`run <preceding handler | -> <yields>`     `get_event_handlers_to_run`; `<yields>` = for every tagger in index order
+                                           `<n> <tuple>*`, `<tuple>` = `N` (None) | `<k> (<m> nat*)*`.
+                                           reply `ok <created> | <running per tagger> | <activated bits>` or
+                                           `err:TagActivatorError` | `err:AssertionError` | `err:KeyError`
+`fp`                                       footprint tables of the session's wiring (see below)
+`trash <handler>`                          `get_trashable_events`: `ok <h,h,…|->` | `err:AssertionError` | `err:KeyError`
+-/
+
+structure ActSess where
+  c : Wiring
+  w : Wires
+  S : Option TaggerIdx
+  a : ActSt
+  building : List TaggerW
+
+private def emptyW : Wiring := ⟨"", [], []⟩
+private def sess0 : ActSess := ⟨emptyW, [], none, init [], []⟩
+
+private def load (c : Wiring) : ActSess := ⟨c, c.wires, c.start?, init c.wires, []⟩
+
+private def hdr (s : ActSess) : String :=
+  let nh := (s.c.taggers.map (·.pool)).foldl (· + ·) 0
+  s!"ok {s.c.n} {nh} " ++ (match s.S with | some i => toString i | none => "-")
+
+private def clsName : TaggerClass → String
+  | .noInState => "noInState" | .activeGlobalState => "activeGlobalState" | .activeRootUnit => "activeRootUnit"
+  | .factorTypeMap => "factorTypeMap" | .cellBoundary => "cellBoundary" | .cellBounding => "cellBounding"
+  | .cellVeto => "cellVeto" | .excludedCells => "excludedCells" | .surplusCells => "surplusCells" | .unknown => "unknown"
+
+private def kindName : HandlerKind → String
+  | .startOfRun => "startOfRun" | .endOfRun => "endOfRun" | .sampling => "sampling" | .dumping => "dumping"
+  | .endOfChain => "endOfChain" | .switcher => "switcher" | .cellBoundary => "cellBoundary" | .cellVeto => "cellVeto"
+  | .interaction => "interaction" | .unknown => "unknown"
+
+private def clsOf (s : String) : TaggerClass :=
+  ([TaggerClass.noInState, .activeGlobalState, .activeRootUnit, .factorTypeMap, .cellBoundary, .cellBounding,
+    .cellVeto, .excludedCells, .surplusCells].find? (clsName · == s)).getD .unknown
+
+private def kindOf (s : String) : HandlerKind :=
+  ([HandlerKind.startOfRun, .endOfRun, .sampling, .dumping, .endOfChain, .switcher, .cellBoundary, .cellVeto,
+    .interaction].find? (kindName · == s)).getD .unknown
+
+private def commas (l : List Nat) : String := if l.isEmpty then "-" else ",".intercalate (l.map toString)
+
+private def dumpW (c : Wiring) : String :=
+  s!"{c.name} labels={",".intercalate c.labels} ; " ++
+  " ; ".intercalate (c.taggers.map fun t =>
+    s!"{t.tag} {clsName t.cls} {t.handler} {kindName t.kind} {t.pool} " ++
+    (match t.label with | some l => toString l | none => "-") ++
+    s!" c:{commas t.creates} t:{commas t.trashes} a:{commas t.activates} d:{commas t.deactivates}")
+
+/-- `<n> x₁ … xₙ rest` -/
+private def takeNats (a : List String) : Option (List Nat × List String) :=
+  match a with
+  | [] => none
+  | n :: rest =>
+    let k := nat! n
+    if rest.length < k then none else some ((rest.take k).map nat!, rest.drop k)
+
+private def takeTuple (fuel : Nat) (a : List String) : Option (IdTuple × List String) :=
+  match a with
+  | [] => none
+  | "N" :: rest => some (none, rest)
+  | k :: rest =>
+    let rec go (fuel n : Nat) (acc : List (List Nat)) (a : List String) : Option (List (List Nat) × List String) :=
+      match fuel, n with
+      | _, 0 => some (acc.reverse, a)
+      | 0, _ => none
+      | f + 1, n + 1 => match takeNats a with
+        | none => none
+        | some (ident, rest) => go f n (ident :: acc) rest
+    match go fuel (nat! k) [] rest with
+    | none => none
+    | some (ids, rest') => some (some ids, rest')
+
+private def takeTuples (fuel : Nat) (n : Nat) (a : List String) : Option (List IdTuple × List String) :=
+  let rec go (fuel n : Nat) (acc : List IdTuple) (a : List String) : Option (List IdTuple × List String) :=
+    match fuel, n with
+    | _, 0 => some (acc.reverse, a)
+    | 0, _ => none
+    | f + 1, n + 1 => match takeTuple (f + 1) a with
+      | none => none
+      | some (t, rest) => go f n (t :: acc) rest
+  go fuel n [] a
+
+private def takeYields (fuel : Nat) (ntag : Nat) (a : List String) : Option (List (List IdTuple)) :=
+  let rec go (fuel n : Nat) (acc : List (List IdTuple)) (a : List String) : Option (List (List IdTuple)) :=
+    match fuel, n with
+    | _, 0 => if a.isEmpty then some acc.reverse else none
+    | 0, _ => none
+    | f + 1, n + 1 => match a with
+      | [] => none
+      | k :: rest => match takeTuples (f + 1) (nat! k) rest with
+        | none => none
+        | some (ts, rest') => go f n (ts :: acc) rest'
+  go fuel ntag [] a
+
+private def encTuple : IdTuple → String
+  | none => "N"
+  | some [] => "E"
+  | some ids => ";".intercalate (ids.map fun i => ".".intercalate (i.map toString))
+
+private def showState (s : ActSess) : String :=
+  joinSp (s.a.ts.map fun t => commas t.running) ++ " | " ++ String.join (s.a.ts.map fun t => b01 t.activated)
+
+def actComp : Comp := ⟨ActSess, sess0, fun s a =>
+  match a with
+  | ["cfg", name] =>
+    match Gen.allCfgs.find? (·.name == name) with
+    | none => (s, "err:unknown-cfg")
+    | some c => let s' := load c; (s', hdr s')
+  | ["dump", name] =>
+    match Gen.allCfgs.find? (·.name == name) with
+    | none => (s, "err:unknown-cfg")
+    | some c => (s, dumpW c)
+  | ["sound", name] =>
+    match Gen.allCfgs.find? (·.name == name) with
+    | none => (s, "err:unknown-cfg")
+    | some c => (s, soundReport c ++ (if WiringSound c then " [true]" else " [false]"))
+  | ["names"] => (s, joinSp (Gen.allCfgs.map (·.name)))
+  | ["wbegin", name, nl] => ({ sess0 with c := ⟨name, (List.range (nat! nl)).map toString, []⟩ }, "ok")
+  | "tagger" :: tag :: cls :: handler :: kind :: label :: pool :: rest =>
+    match takeNats rest with
+    | none => (s, "bad-op")
+    | some (cr, r1) => match takeNats r1 with
+      | none => (s, "bad-op")
+      | some (tr, r2) => match takeNats r2 with
+        | none => (s, "bad-op")
+        | some (ac, r3) => match takeNats r3 with
+          | none => (s, "bad-op")
+          | some (de, r4) =>
+            if !r4.isEmpty then (s, "bad-op") else
+            let t : TaggerW := ⟨tag, clsOf cls, handler, kindOf kind, cr, tr, ac, de, nat! pool,
+                                if label == "-" then none else some (nat! label)⟩
+            ({ s with building := s.building ++ [t] }, s!"ok {s.building.length}")
+  | ["wend"] =>
+    let s' := load { s.c with taggers := s.building }
+    (s', hdr s')
+  | ["soundw"] => (s, soundReport s.c ++ (if WiringSound s.c then " [true]" else " [false]"))
+  | "run" :: pre :: rest =>
+    match takeYields (rest.length + 2) s.c.n rest with
+    | none => (s, "bad-op")
+    | some ys =>
+      let yields : TaggerIdx → List IdTuple := fun T => (ys[T]?).getD []
+      let preceding := if pre == "-" then none else some (nat! pre)
+      -- without a start-of-run handler `TagActivator.initialize` raises; the harness never gets that far
+      let (a', out) := getToRun s.w (s.S.getD 0) s.a preceding yields
+      let s' := { s with a := a' }
+      match out with
+      | .ok created =>
+        let cs := if created.isEmpty then "-" else joinSp (created.map fun (h, ids) => s!"{h}={encTuple ids}")
+        (s', s!"ok {cs} | " ++ showState s')
+      | .tagActivatorError => (s', "err:TagActivatorError")
+      | .assertionError => (s', "err:AssertionError")
+      | .keyError => (s', "err:KeyError")
+  | ["trash", h] =>
+    let (a', out) := getTrashable s.w s.a (nat! h)
+    let s' := { s with a := a' }
+    match out with
+    | .ok l => (s', s!"ok {commas l}")
+    | .assertionError => (s', "err:AssertionError")
+    | .keyError => (s', "err:KeyError")
+  | ["state"] => (s, showState s)
+  | ["fp"] =>
+    -- footprint tables of the session's wiring, per tagger: affects ident, affects motion, idsView, motionBound,
+    -- then per tagger pair E,T the bit `disjointFP`
+    (s, joinSp (s.c.taggers.map fun t =>
+        t.tag ++ ":" ++ b01 (affects t .ident) ++ b01 (affects t .motion) ++ b01 (idsView t) ++ b01 (motionBound t) ++ ":" ++
+        String.join (s.c.taggers.map fun u => b01 (disjointFP s.c t u))))
+  | _ => (s, "bad-op")⟩
+
 end JF.Driver
